@@ -231,6 +231,10 @@ func c10RunWithCrash(r *verifkit.Run, id string, w *world, g *gen, tape []func()
 	cs.mu.Lock()
 	storedNHR, haveNHR := cs.lastNHR, cs.haveNHR
 	storedTop := cs.topCommitted
+	var futureAtCrash [][2]uint64
+	for hr := range cs.futureStored {
+		futureAtCrash = append(futureAtCrash, hr)
+	}
 	cs.mu.Unlock()
 	cs.logf("CRASH at write %d while delivering tape[%d]; stores hold NHR=%v top=%d", k, next, storedNHR, storedTop)
 
@@ -325,6 +329,24 @@ func c10RunWithCrash(r *verifkit.Run, id string, w *world, g *gen, tape []func()
 	if !check("right after restart") {
 		return
 	}
+	// Known finding C10:...:future-votes-only-loaded-on-restart. Votes for rounds beyond
+	// the next-round view go to the round store only; the running mirror starts such a
+	// round with empty views when it gets there (TODO in kState.ShiftVotingToCommitting /
+	// incrementVotingRound), a restarted mirror loads them. A divergence is attributed to
+	// that only when the stores held such votes, at the crash, for a round between the
+	// stored voting position and the next round of the position the restart resumed in.
+	futureSuffix := ""
+	if vvA, _, okA := n.views(); okA && haveNHR {
+		for _, hr := range futureAtCrash {
+			notBefore := hr[0] > storedNHR[0] || (hr[0] == storedNHR[0] && hr[1] >= storedNHR[1])
+			notAfter := hr[0] < vvA.Height || (hr[0] == vvA.Height && hr[1] <= uint64(vvA.Round)+1)
+			if notBefore && notAfter {
+				futureSuffix = ":future-votes-only-loaded-on-restart"
+				counters["restarts_that_loaded_future_votes"]++
+				break
+			}
+		}
+	}
 	if !mo.afterStep() {
 		return
 	}
@@ -364,10 +386,10 @@ func c10RunWithCrash(r *verifkit.Run, id string, w *world, g *gen, tape []func()
 		}
 	}
 	if !same {
-		fail("C10:committed-chain-differs-from-uninterrupted-run", fmt.Sprintf("after crash at write %d, restart and redelivery the chain is %s, uninterrupted run has %s", k, fmtChain(got), fmtChain(ref.chain)), nil)
+		fail("C10:committed-chain-differs-from-uninterrupted-run"+futureSuffix, fmt.Sprintf("after crash at write %d, restart and redelivery the chain is %s, uninterrupted run has %s", k, fmtChain(got), fmtChain(ref.chain)), nil)
 	}
 	if vv.Height != ref.vh || vv.Round != ref.vr || cv.Height != ref.ch || cv.Round != ref.cr {
-		fail("C10:position-differs-from-uninterrupted-run", fmt.Sprintf("after crash at write %d, restart and redelivery the node is at voting %d/%d committing %d/%d; the uninterrupted run reached voting %d/%d committing %d/%d", k, vv.Height, vv.Round, cv.Height, cv.Round, ref.vh, ref.vr, ref.ch, ref.cr), nil)
+		fail("C10:position-differs-from-uninterrupted-run"+futureSuffix, fmt.Sprintf("after crash at write %d, restart and redelivery the node is at voting %d/%d committing %d/%d; the uninterrupted run reached voting %d/%d committing %d/%d", k, vv.Height, vv.Round, cv.Height, cv.Round, ref.vh, ref.vr, ref.ch, ref.cr), nil)
 	}
 	counters["recoveries_completed"]++
 	n.stop()
